@@ -233,7 +233,9 @@ CONSTANTS ValidateOnPrint,   \* TRUE = pinned tree, FALSE = as required
           InstOps,           \* further instruction kinds: subset of {"alloca","use"}
           RefTargets,        \* typed-operand uses of: subset of {"global","func","alloca"}
           RefGlobals,        \* TRUE: NewGlobalRef (a global initialised with a global / function)
-          FieldEdits,        \* subset of {"GlobalAddrSpace","GlobalContent","FuncAddrSpace","FuncVariadic","AllocaAddrSpace","AllocaElem"}
+          FieldEdits,        \* subset of {"GlobalAddrSpace","GlobalContent","FuncAddrSpace","FuncVariadic","AllocaAddrSpace","AllocaElem",
+                             \* "GlobalTypeName","GlobalTypeFill"} (the last two: the global's content type is a literal struct
+                             \* that is named by Module.NewTypeDef / un-named again, gets a field appended / cut off again)
           TermKinds,         \* subset of {"ret","br","invoke","callbr","catchswitch"}
           MaxMd,             \* metadata definitions (0 = none)
           MdExplicit,        \* explicit IDs InsertMd may give besides -1 (unassigned): subset of 0..MaxMd
@@ -270,7 +272,8 @@ CONSTANTS ValidateOnPrint,   \* TRUE = pinned tree, FALSE = as required
                              \* filled it -- a phi built as a struct literal prints only after somebody asked for its type)
           TrustCachedID,     \* FALSE = the code: AssignIDs renumbers every unnamed local; TRUE = an unnamed local that
                              \* carries a non-zero ID keeps it (vacuity guard)
-          Observers,         \* subset of {"PrintModule","PrintFunc","PrintBlock","QueryType","QueryIdent","QueryOperands","QuerySuccs"}
+          Observers,         \* subset of {"PrintModule","PrintFunc","PrintBlock","QueryType","QueryIdent","QueryOperands","QuerySuccs",
+                             \* "WriteToFail"} (WriteToFail: Module.WriteTo into a writer that fails or accepts only part)
           EmitFile
 
 VARIABLES gl, fn, md, twin, out, parsed, lastq, hist
@@ -296,8 +299,13 @@ RefB(f, b) == [t |-> "block", i |-> f, b |-> b]        \* blockaddress(@f, %b)
 
 \* lk: the function's mutex is held (left behind by a print that panicked, UnlockOnPanic = FALSE);
 \* nb: the count memo (CountMemo = TRUE), -1 = not numbered yet
+\* sp, fl: how the global's content type -- a literal struct type in the configurations that edit types -- is spelled
+\* at the moment: sp = 1 after Module.NewTypeDef (the struct has a name: "%t" wherever the type occurs, also inside the
+\* pointer type of every use), fl = 1 after a field was appended to the struct.  Nothing may cache a spelling: the
+\* definition line and every typed use show the spelling of the moment of the print (SpellOf).
 GEnt(nm) == [name |-> nm, id |-> 0, res |-> "value", as |-> 0, ct |-> 0, va |-> FALSE,
-             tc |-> NewTC, ref |-> NoRef, snap |-> NoTC, att |-> 0, lk |-> FALSE, nb |-> -1]
+             tc |-> NewTC, ref |-> NoRef, snap |-> NoTC, att |-> 0, lk |-> FALSE, nb |-> -1, sp |-> 0, fl |-> 0]
+SpellOf(e, c) == c + 2 * e.sp + 4 * e.fl
 \* an alias / ifunc: NewAlias / NewIFunc compute Typ at once; ref = what it points to: NoRef = the first
 \* helper (i32 global / resolver of void ()), Ref("helper", 1) = the second helper (i64 global / resolver
 \* of i32 ()), Ref("global", i) = a global of the module
@@ -427,14 +435,14 @@ IndGroup(t) == IF t = "alias" THEN "aliases" ELSE "ifuncs"
 \* with another object the ContentType is the type copied at construction
 \* the block a blockaddress names, as it is shown: its number at that moment (-1: named)
 BaTy(w, r)  == <<Ty("ba", Tok(w.fn[r.i].blocks[r.b]).id, 0)>>
-GlobalTy(w, e) == IF e.ref = NoRef THEN <<Ty("gdef", e.as, e.ct)>>
+GlobalTy(w, e) == IF e.ref = NoRef THEN <<Ty("gdef", e.as, SpellOf(e, e.ct))>>
                   ELSE IF e.ref.t = "block" THEN BaTy(w, e.ref)
                   ELSE <<Ty("gref", e.snap.as, e.snap.ct)>>
 FuncTy(e)   == <<Ty("fdef", e.as, B2N(e.va))>>
 \* an instruction: alloca shows its fields; a use shows the *cached* type of its operand
 InstTy(w, f, i) ==
   CASE i.op = "alloca" -> <<Ty("adef", i.as, i.ct)>>
-    [] i.op = "use" /\ i.ref.t = "global" -> LET e == w.gl.globals[i.ref.i] IN <<Ty("guse", e.tc.as, e.tc.ct)>>
+    [] i.op = "use" /\ i.ref.t = "global" -> LET e == w.gl.globals[i.ref.i] IN <<Ty("guse", e.tc.as, SpellOf(e, e.tc.ct))>>
     [] i.op = "use" /\ i.ref.t = "func"   -> LET e == w.gl.funcs[i.ref.i] IN <<Ty("fuse", e.tc.as, B2N(e.va))>>
     [] i.op = "use" /\ i.ref.t = "alloca" -> LET a == TheAlloca(w.fn[f]) IN <<Ty("ause", a.tc.as, a.tc.ct)>>
     [] i.op = "use" /\ i.ref.t = "block"  -> BaTy(w, i.ref)
@@ -699,18 +707,24 @@ SetAllocaField(body, fld, v) ==
 SetFieldW(w, fld, i, v) ==
   CASE fld = "GlobalAddrSpace" -> [w EXCEPT !.gl.globals[i].as = v]
     [] fld = "GlobalContent"   -> [w EXCEPT !.gl.globals[i].ct = v]
+    [] fld = "GlobalTypeName"  -> [w EXCEPT !.gl.globals[i].sp = v]
+    [] fld = "GlobalTypeFill"  -> [w EXCEPT !.gl.globals[i].fl = v]
     [] fld = "FuncAddrSpace"   -> [w EXCEPT !.gl.funcs[i].as = v]
     [] fld = "FuncVariadic"    -> [w EXCEPT !.gl.funcs[i].va = (v = 1)]
     [] fld \in {"AllocaAddrSpace", "AllocaElem"} -> [w EXCEPT !.fn[i] = SetAllocaField(@, fld, v)]
 FieldValue(w, fld, i) ==
   CASE fld = "GlobalAddrSpace" -> w.gl.globals[i].as
     [] fld = "GlobalContent"   -> w.gl.globals[i].ct
+    [] fld = "GlobalTypeName"  -> w.gl.globals[i].sp
+    [] fld = "GlobalTypeFill"  -> w.gl.globals[i].fl
     [] fld = "FuncAddrSpace"   -> w.gl.funcs[i].as
     [] fld = "FuncVariadic"    -> B2N(w.gl.funcs[i].va)
     [] fld = "AllocaAddrSpace" -> TheAlloca(w.fn[i]).as
     [] fld = "AllocaElem"      -> TheAlloca(w.fn[i]).ct
 FieldExists(w, fld, i) ==
   CASE fld \in {"GlobalAddrSpace"} -> i <= Len(w.gl.globals)
+    \* the type edits: the global owns its struct type (not one copied from another global)
+    [] fld \in {"GlobalTypeName", "GlobalTypeFill"} -> i <= Len(w.gl.globals) /\ w.gl.globals[i].ref = NoRef
     [] fld = "GlobalContent"       -> i <= Len(w.gl.globals) /\ w.gl.globals[i].ref = NoRef
     [] fld \in {"FuncAddrSpace", "FuncVariadic"} -> i <= Len(w.gl.funcs)
     [] fld \in {"AllocaAddrSpace", "AllocaElem"} -> i <= Len(w.fn) /\ HasAlloca(w.fn[i])
@@ -1049,6 +1063,16 @@ QueryTypeA == "QueryType" \in Observers /\
   Observe([w |-> QueryTypeW(World), out |-> out], [op |-> "QueryType"])
 QueryOperandsA == "QueryOperands" \in Observers /\
   Observe([w |-> QueryOperandsW(World), out |-> out], [op |-> "QueryOperands"])
+\* Module.WriteTo into a writer that fails: at = where ("zero": rejects the first byte, "mid": half of the text, "tail":
+\* the last byte), mode = how ("error": Write returns an error, "short": Write returns fewer bytes than given and no
+\* error), then = what is printed next ("same": this module, "other": an unrelated module, whose text must be what
+\* it always is).  The call numbers and fills what PrintModule does and returns no text; a failed print leaves
+\* nothing else behind -- the model has no place where undelivered text could stay.
+FailAt == {"zero", "mid", "tail"}
+WriteToFailA == "WriteToFail" \in Observers /\
+  \E at \in FailAt, mode \in {"error", "short"}, then \in {"same", "other"} :
+    Observe([w |-> PrintModuleW(World, ValidateOnPrint).w, out |-> out],
+            [op |-> "WriteToFail", at |-> at, mode |-> mode, then |-> then])
 QueryA == \E q \in Observers \cap {"QueryIdent", "QuerySuccs"} :
     Observe([w |-> World, out |-> out], [op |-> q])
 
@@ -1056,7 +1080,7 @@ Next == \/ ParseText
         \/ NewGlobalA \/ NewGlobalRefA \/ NewFuncA \/ NewBlockA \/ InsertInstA \/ RemoveInstA
         \/ ReplaceInstA \/ SwapInstsA \/ SetTargetA \/ DepEditA \/ NewDetachedBlockA \/ BlockEditA \/ RemoveGlobalA \/ IdentEditA
         \/ SetTermA \/ RetargetA \/ SetNameA \/ OperandEditA \/ SetFieldA \/ InsertMdA \/ RemoveMdA \/ AttachMdA
-        \/ PrintModuleA \/ PrintFuncA \/ PrintBlockA \/ QueryTypeA \/ QueryOperandsA \/ QueryA
+        \/ PrintModuleA \/ PrintFuncA \/ PrintBlockA \/ QueryTypeA \/ QueryOperandsA \/ QueryA \/ WriteToFailA
 Spec == Init /\ [][Next]_vars
 
 ----------------------------------------------------------------------------
